@@ -30,7 +30,37 @@ def ck_div(args, res, exc):
     if exc: return f'unexpected {type(exc).__name__}: {exc}'
     x, y = Fraction(a, one), Fraction(b, one)
     err = abs(Fraction(res) - x / y) * one
-    return err <= 16 * (1 + abs(x)) or f'x/y off by {float(err):.2f} units > 16(1+|x|) = {float(16 * (1 + abs(x))):.2f}'
+    if err <= 16 * (1 + abs(x)): return True
+    msg = f'x/y = {float(x)}/{float(y)}: got {float(res)}, off by {float(err):.2f} units > 16(1+|x|) = {float(16 * (1 + abs(x))):.2f}'
+    # two listed known findings, each delimited exactly; every other excess is a different violation
+    if l > 2 * f + 1 and res == 0:
+        return ('class', 'l>2f+1:quotient-is-0', msg + ' (the normalisation constant 2^(f-l+1) of _norm is below the resolution 2^-f and rounds to 0)')
+    if l <= 2 * f + 1 and abs(y) < 1 and err <= 16 * (1 + abs(x) + abs(x / y)):
+        return ('class', 'divisor-below-1:error-proportional-to-quotient', msg + f' (within 16(1+|x|+|x/y|) = {float(16 * (1 + abs(x) + abs(x / y))):.2f}: the Newton '
+                'reciprocal is accurate to a few units RELATIVE to 1/y)')
+    return msg
+
+
+def in_div_f8(tier):
+    """larger fractional parts (the exhaustive small type f = 4 cannot show errors that grow with 1/y): sampled grid"""
+    import random
+    rnd = random.Random(7)
+    for l, f in ((16, 8), (24, 12)) + (((32, 16),) if tier != 'quick' else ()):
+        one = 1 << f; half = 1 << (l - 1)
+        bs = list(range(1, 24)) + [-1, -2, -3, -7, one // 2 - 1, one // 2, one - 1, one, one + 1, 3 * one + 7, -one, -5 * one - 3, half // 3]
+        as_ = [0, 1, 2, 5, -3, one // 3, one - 1, one, one + 1, -one, 7 * one + 3] + [rnd.randrange(-half // 64, half // 64) for _ in range(6 if tier == 'quick' else 40)]
+        for b in bs:
+            for a in as_:
+                if abs(Fraction(a, b)) * one < half - 16 * (one + abs(a) + abs(Fraction(a * one, b))) / one - 1:
+                    yield (l, f, a, b)
+
+
+def in_div_wide(tier):
+    """types with l > 2f+1 (the property covers every l >= 2f)"""
+    for l, f in ((12, 4), (16, 6), (32, 14), (64, 16)):
+        one = 1 << f
+        for a, b in ((one, 2 * one), (3 * one, 4 * one), (10 * one, 3 * one), (-7 * one, 2 * one), (one, one // 2), (5 * one, 100 * one), (one // 4, -one), (1, 1)):
+            yield (l, f, a, b)
 
 
 def in_div(tier):
@@ -38,7 +68,7 @@ def in_div(tier):
         one = 1 << f; half = 1 << (l - 1)
         for b in range(-half, half):
             if b == 0: continue
-            for a in range(-half, half, 1 if tier != 'quick' else 7):
+            for a in range(-half, half, (1 if l <= 8 else 29) if tier != 'quick' else 7):
                 q = Fraction(a, b)
                 if abs(q) * one < half - 16 * (one + abs(a)) / one - 1:      # result (and its error margin) in range
                     yield (l, f, a, b)
@@ -53,7 +83,11 @@ def ck_rec(args, res, exc):
     l, f, b = args; one = 1 << f
     if exc: return f'unexpected {type(exc).__name__}: {exc}'
     err = abs(Fraction(res) - Fraction(one, b)) * one
-    return err <= 16 * 2 or f'1/y off by {float(err):.2f} units > 32'
+    if err <= 16 * 2: return True
+    msg = f'1/y for y = {b}/{one}: got {float(res)}, off by {float(err):.2f} units > 32'
+    if l <= 2 * f + 1 and abs(b) < one and err <= 16 * (2 + abs(Fraction(one, b))):
+        return ('class', 'divisor-below-1:error-proportional-to-quotient', msg + ' (within 16(2+|1/y|))')
+    return msg
 
 
 def in_rec(tier):
@@ -74,13 +108,25 @@ def ck_sincos(args, res, exc):
     if exc: return f'unexpected {type(exc).__name__}: {exc}'
     x = a / one
     es, ec = abs(res[0] - math.sin(x)) * one, abs(res[1] - math.cos(x)) * one
-    return (es <= 4.001 and ec <= 4.001) or f'sin/cos off by {es:.2f} / {ec:.2f} units > 4'
+    if es <= 4.001 and ec <= 4.001: return True
+    msg = f'sin/cos of {x}: off by {es:.2f} / {ec:.2f} units > 4'
+    # listed known finding, delimited exactly: large arguments, error proportional to |x| (argument reduction with an f-bit constant)
+    if abs(x) >= 32 and max(es, ec) <= 4 + abs(x) / 8:
+        return ('class', 'argument-above-32:error-proportional-to-|x|', msg + f' (within 4 + |x|/8 = {4 + abs(x) / 8:.2f})')
+    return msg
 
 
 def in_sincos(tier):
     for l, f in ((10, 5), (16, 8)) if tier != 'quick' else ((10, 5),):
         half = 1 << (l - 1)
         for a in range(-half, half, 1 if tier != 'quick' else 3): yield (l, f, a)
+    # large arguments (sampled)
+    import random
+    rnd = random.Random(11)
+    for l, f in ((16, 8), (20, 8)):
+        half = 1 << (l - 1)
+        for a in [half - 1, -half, -half + 1, half // 2, -half // 3] + [rnd.randrange(-half, half) for _ in range(40 if tier == 'quick' else 400)]:
+            yield (l, f, a)
 
 
 def call_pow(l, f, a, n):
@@ -199,9 +245,12 @@ def in_conv_ff(tier):
 
 
 NATIVE = {n.name: n for n in [
-    Native('fxp_div', 'mpyc.runtime.Runtime.div/_rec/_norm', call_div, ck_div, in_div, 'SecFxp(8,4): all divisors, every 7th dividend (thorough: all pairs, + (12,6)); results in range'),
+    Native('fxp_div_f8', 'mpyc.runtime.Runtime.div/_rec/_norm', call_div, ck_div, in_div_f8,
+           'SecFxp(16,8), SecFxp(24,12) (thorough + SecFxp(32,16)): 36 divisors (1..23 units, around 1/2, 1, 3, -5, max/3) x 17 (51) dividends, quotient in range'),
+    Native('fxp_div_wide', 'mpyc.runtime.Runtime.div/_rec/_norm', call_div, ck_div, in_div_wide, 'SecFxp(12,4), (16,6), (32,14), (64,16): 8 quotients each'),
+    Native('fxp_div', 'mpyc.runtime.Runtime.div/_rec/_norm', call_div, ck_div, in_div, 'SecFxp(8,4): all divisors, every 7th dividend (thorough: all pairs, + SecFxp(12,6) all divisors, every 29th dividend); results in range'),
     Native('fxp_reciprocal', 'mpyc.runtime.Runtime._rec/_norm', call_rec, ck_rec, in_rec, 'SecFxp(8,4), (12,6) (thorough + (16,8)): all representable y with 1/y in range'),
-    Native('fxp_sincos', 'mpyc.runtime.Runtime.sincos', call_sincos, ck_sincos, in_sincos, 'SecFxp(10,5): every 3rd representable x (thorough: all, + (16,8))'),
+    Native('fxp_sincos', 'mpyc.runtime.Runtime.sincos', call_sincos, ck_sincos, in_sincos, 'SecFxp(10,5): every 3rd representable x (thorough: all, + (16,8) all); SecFxp(16,8), SecFxp(20,8): extremes + 40 (400) sampled arguments'),
     Native('fxp_pow', 'mpyc.runtime.Runtime.pow (fixed point)', call_pow, ck_pow, in_pow, 'SecFxp(12,4): n in {2,3,4}, every 5th x with x**n in range (thorough: all, + (16,6))'),
     Native('int_gcd_family', 'mpyc.runtime.Runtime.gcd/lcm/gcdext/inverse/_gcd/_divsteps', call_gcd, ck_gcd, in_gcd, 'all pairs of 4-bit (thorough 5-bit) integers'),
     Native('field_conversions', 'mpyc.runtime.Runtime.convert/_convert (secure fields)', call_conv, ck_conv, in_conv, 'GF(q) for q in {2,3,7,11,101,251}, signed and unsigned, all (sampled for q > 20) elements'),
@@ -210,7 +259,7 @@ NATIVE = {n.name: n for n in [
     Native('field_conversions_gf2_signed', 'mpyc.runtime.Runtime.convert/_convert[signed-GF(2)]', call_conv, ck_conv, in_conv_gf2_signed, 'signed GF(2), both elements'),
 ]}
 for _n in NATIVE.values(): _n.module = 'contracts.runtime_native'
-BY_PROP = {'C02': ['fxp_div', 'fxp_reciprocal', 'fxp_sincos', 'fxp_pow'], 'C01': ['int_gcd_family'], 'C06': ['field_conversions', 'field_conversions_field_to_field', 'field_conversions_gf2_signed']}
+BY_PROP = {'C02': ['fxp_div', 'fxp_div_f8', 'fxp_div_wide', 'fxp_reciprocal', 'fxp_sincos', 'fxp_pow'], 'C01': ['int_gcd_family'], 'C06': ['field_conversions', 'field_conversions_field_to_field', 'field_conversions_gf2_signed']}
 
 
 def tasks(tier, prop):
